@@ -171,6 +171,15 @@ func c05Scenarios(tier string) []*Scenario {
 		// fan-out
 		add([]GNode{depNodeFor("a", c1, "unsat"), {Name: "b", Beh: "ok", Deps: map[string]string{"a": c1}}, {Name: "c", Beh: "ok", Deps: map[string]string{"a": c1}}})
 	}
+	// `process-compose run b`: the main process carries exit_on_skipped (and implicitly exit_on_end) and is skipped
+	for _, c1 := range conds {
+		a := depNodeFor("a", c1, "unsat")
+		b := GNode{Name: "b", Beh: "ok", Deps: map[string]string{"a": c1}, ExitOnSk: true}
+		add([]GNode{a, b, {Name: "x", Beh: "daemon"}})
+		sc := scs[len(scs)-1]
+		sc.ID += "-main[b]"
+		sc.Main = "b"
+	}
 	// the dependent in the middle is stopped by the user while it is still pending; its dependency fails
 	// afterwards; a disabled process depending on the middle one is then started by hand
 	for _, c1 := range conds {
